@@ -1334,8 +1334,15 @@ func joinSQL(j *JoinClause) string {
 	sb.WriteString(" JOIN ")
 	sb.WriteString(tableRefSQL(&j.Right))
 	if j.Condition != nil {
-		sb.WriteString(" ON ")
-		sb.WriteString(exprSQL(j.Condition))
+		if cols, ok := j.Condition.(*ListExpression); ok {
+			// the parser records USING (a, b) as a column list; ON never yields one
+			sb.WriteString(" USING (")
+			sb.WriteString(exprSQL(cols))
+			sb.WriteString(")")
+		} else {
+			sb.WriteString(" ON ")
+			sb.WriteString(exprSQL(j.Condition))
+		}
 	}
 	return sb.String()
 }
